@@ -59,9 +59,22 @@ func runC14(r *Run) {
 		chalNonce := map[int]int{}     // step index -> model nonce
 		nonce := 0
 		nsteps := 1 + rng.Intn(12)
+		sidNo := map[string]string{}
 		var negs []int
 		for k := 0; k < nsteps; k++ {
-			st := ntlmStep{sid: []string{"s1", "s1", "s2", "10.0.0.1:4711", "10.0.0.1:4712", "10.0.0.1:4711", ""}[rng.Intn(7)], from: -1}
+			// session identifiers are peer addresses in practice: short ones, ones that share a host, and
+			// long ones (fully written IPv6 with 5-digit ports, long opaque ids) that agree on a long prefix
+			sidSets := [][]string{
+				{"s1", "s1", "s2", "10.0.0.1:4711", "10.0.0.1:4712", "10.0.0.1:4711", ""},
+				{"[2001:0db8:1111:2222:3333:4444:5555:6666]:50012", "[2001:0db8:1111:2222:3333:4444:5555:6666]:50013", "[2001:0db8:1111:2222:3333:4444:5555:6666]:50012", "[2001:0db8:1111:2222:3333:4444:5555:6666]:5001"},
+				{strings.Repeat("x", 64) + "A", strings.Repeat("x", 64) + "B", strings.Repeat("x", 64), strings.Repeat("x", 32) + "A", strings.Repeat("x", 32) + "B"},
+				{"S1", "s1", "s1 ", " s1", "s1\x00", "s1\x00x"},
+			}
+			set := sidSets[0]
+			if i%3 == 1 {
+				set = sidSets[1+(i/3)%3]
+			}
+			st := ntlmStep{sid: set[rng.Intn(len(set))], from: -1}
 			switch x := rng.Intn(12); {
 			case x < 4:
 				st.kind = 'N'
@@ -166,7 +179,10 @@ func runC14(r *Run) {
 			}
 			sid := "-"
 			if st.sid != "" {
-				sid = map[string]string{"s1": "1", "s2": "2", "10.0.0.1:4711": "3", "10.0.0.1:4712": "4"}[st.sid]
+				if _, ok := sidNo[st.sid]; !ok {
+					sidNo[st.sid] = fmt.Sprint(len(sidNo) + 1)
+				}
+				sid = sidNo[st.sid]
 			}
 			hc.steps = append(hc.steps, st)
 			hc.outs = append(hc.outs, out)
